@@ -101,6 +101,10 @@ def main():
                   lambda e: key(R(e, 0), 'misc')[1]['v'][0].__setitem__(0, codes('c')), ['DictField'])
     ok &= corrupt('list field order swapped',
                   lambda e: key(R(e, 0), 'sites')[1]['v'].reverse(), ['ListField'])
+    ok &= corrupt('list field cut short',
+                  lambda e: key(R(e, 0), 'sites')[1]['v'].pop(), ['ListField'])
+    ok &= corrupt('vib_wavenumbers cut short',
+                  lambda e: key(R(e, 0), 'vib_wavenumbers')[1]['v'].pop(), ['VibList'])
     ok &= corrupt('an extra key',
                   lambda e: R(e, 2).append([codes('extra'), N(12345)]), ['ExactKeys'])
     ok &= corrupt('the call raised', lambda e: e.update(raised='ValueError', records=[]), ['Raises'])
